@@ -157,6 +157,8 @@ class ReloadSim(S.Sim):
                 "spawn_args": {str(p): _jsonable(self.k.spawn_args.get(p)) for p in live},
                 "signalled": sorted(set(int(l.split(" ")[2]) for l in log if l.startswith("o sig "))),
                 "reply": reps[-1] if reps else None,
+                "reply_errno": ([l.split(" ")[5] for l in log if l.startswith("o rep ")] or [None])[-1],
+                "slot": self.arb._exclusive_running_command,
                 "raised": list(self.raised), "errors": list(self.errors)[-3:], "blocked": bool(self.blocked)}
 
 
